@@ -197,9 +197,18 @@ func (p *Proc) roundTrip(cmd string) ([]string, error) {
 // Check runs (check-sat) in the current context.
 func (p *Proc) Check() Result {
 	t0 := time.Now()
-	lines, err := p.roundTrip("(check-sat)\n")
+	cmd := "(check-sat)\n"
+	if p.Kind != "cvc5" {
+		if t := os.Getenv("VSYM_TACTIC"); t != "" {
+			cmd = "(check-sat-using " + t + ")\n"
+		}
+	}
+	lines, err := p.roundTrip(cmd)
 	atomic.AddInt64(&Global.Nanos, int64(time.Since(t0)))
 	atomic.AddInt64(&Global.Queries, 1)
+	if d := os.Getenv("VSYM_DUMP_SLOW"); d != "" && time.Since(t0) > 500*time.Millisecond {
+		os.WriteFile(fmt.Sprintf("%s/slow-%d-%d.smt2", d, os.Getpid(), time.Now().UnixNano()), []byte(p.Script.String()+"(check-sat)\n"), 0o644)
+	}
 	if os.Getenv("VSYM_QTIME") != "" {
 		fmt.Fprintf(os.Stderr, "qtime %s %v\n", p.Kind, time.Since(t0))
 	}
@@ -365,8 +374,8 @@ func PortfolioCheck(script string, timeout time.Duration) (Result, string) {
 	ctx, cancel := context.WithTimeout(context.Background(), timeout)
 	defer cancel()
 	cmds := [][]string{
-		{"cvc5", "--lang=smt2", f.Name()},
-		{"cvc5", "--lang=smt2", "--solve-bv-as-int=sum", f.Name()},
+		{"cvc5", "--lang=smt2", "--incremental", f.Name()},
+		{"cvc5", "--lang=smt2", "--incremental", "--solve-bv-as-int=sum", f.Name()},
 		{"z3-new", f.Name()},
 		{"z3", f.Name()},
 	}
